@@ -151,6 +151,7 @@ def parse_vspec(path):
                         it = dict(it)
                         it["imported_from"] = other.name
                         it["before"], it["after"], it["loops"] = [], [], []
+                        it["loopstarts"], it["loopends"], it["afterloops"] = [], [], []
                         u.items.append(it)
                     u.imports.append(other.name)
                 elif key == "@genconst":
